@@ -120,6 +120,7 @@ type pkgInfo struct {
 	hand    map[string]bool // struct declared in a file without the "Code generated" header
 	consts  map[string]ast.Expr // package-level constants with a literal value
 	strs    map[string]string   // package-level string constants
+	vars    map[string]ast.Expr // package-level variables initialised with a composite literal
 }
 
 func scalarWidth(t string) int {
@@ -153,7 +154,7 @@ func typeStr(e ast.Expr) string {
 }
 
 func loadPkg(root, short, dir string) *pkgInfo {
-	pi := &pkgInfo{short: short, structs: map[string]*ast.StructType{}, methods: map[string]map[string]*ast.FuncDecl{}, funcs: map[string]*ast.FuncDecl{}, hand: map[string]bool{}, consts: map[string]ast.Expr{}, strs: map[string]string{}}
+	pi := &pkgInfo{short: short, structs: map[string]*ast.StructType{}, methods: map[string]map[string]*ast.FuncDecl{}, funcs: map[string]*ast.FuncDecl{}, hand: map[string]bool{}, consts: map[string]ast.Expr{}, strs: map[string]string{}, vars: map[string]ast.Expr{}}
 	files, _ := filepath.Glob(filepath.Join(root, dir, "*.go"))
 	sort.Strings(files)
 	for _, f := range files {
@@ -174,6 +175,19 @@ func loadPkg(root, short, dir string) *pkgInfo {
 		for _, d := range af.Decls {
 			switch d := d.(type) {
 			case *ast.GenDecl:
+				if d.Tok == token.VAR {
+					for _, s := range d.Specs {
+						if vs, ok := s.(*ast.ValueSpec); ok && len(vs.Names) == len(vs.Values) {
+							for k, n := range vs.Names {
+								if cl, ok := vs.Values[k].(*ast.CompositeLit); ok {
+									if _, isArr := cl.Type.(*ast.ArrayType); isArr {
+										pi.vars[n.Name] = cl
+									}
+								}
+							}
+						}
+					}
+				}
 				if d.Tok == token.CONST {
 					for _, s := range d.Specs {
 						if vs, ok := s.(*ast.ValueSpec); ok && len(vs.Names) == len(vs.Values) {
@@ -1266,8 +1280,13 @@ func (pi *pkgInfo) tables(sc *Schema, tyID func(pkg, name string) (int, bool)) {
 			continue // not a function that reads a map at its parameter
 		}
 		if shape == "?" {
-			sc.Notes = append(sc.Notes, "unrecognised lookup function "+pi.short+"."+name)
-			continue
+			if c2, ok := lookupSym(fd); ok && c2 == cacheName {
+				shape = "S"
+				sc.Notes = append(sc.Notes, "lookup function "+pi.short+"."+name+" recognised by path-wise execution")
+			} else {
+				sc.Notes = append(sc.Notes, "unrecognised lookup function "+pi.short+"."+name)
+				continue
+			}
 		}
 		cache := ast.NewIdent(cacheName)
 		kt := typeStr(fd.Type.Params.List[0].Type)
@@ -1306,13 +1325,22 @@ func (pi *pkgInfo) tables(sc *Schema, tyID func(pkg, name string) (int, bool)) {
 			return a < b
 		})
 		for _, in := range inits {
-			for _, s := range pi.funcs[in].Body.List {
-				es, ok := s.(*ast.ExprStmt)
-				if !ok {
-					continue
+			var calls []*ast.CallExpr
+			if !initCalls(pi.funcs[in].Body.List, map[string]ast.Expr{}, &calls) {
+				// an init function with statements other than calls / literal loops: read its top-level calls only
+				calls = nil
+				for _, s := range pi.funcs[in].Body.List {
+					if es, ok := s.(*ast.ExprStmt); ok {
+						if ce, ok := es.X.(*ast.CallExpr); ok {
+							calls = append(calls, ce)
+						}
+					} else if _, isRange := s.(*ast.RangeStmt); isRange {
+						t.Entries = append(t.Entries, Entry{Key: "?loop", Ty: -1, TyN: "?"})
+					}
 				}
-				ce, ok := es.X.(*ast.CallExpr)
-				if !ok || len(ce.Args) != 2 {
+			}
+			for _, ce := range calls {
+				if len(ce.Args) != 2 {
 					continue
 				}
 				if id, ok := ce.Fun.(*ast.Ident); !ok || id.Name != reg {
@@ -1539,6 +1567,14 @@ func main() {
 			}
 			if why != "" {
 				sc.Notes = append(sc.Notes, fmt.Sprintf("%s.%s: frame shape not recognised (%s)", t.Pkg, t.Name, why))
+			}
+		}
+		// statement i must read / write field i: the model identifies an op with its position in the struct
+		for _, ops := range [][]Op{t.Enc, t.Dec} {
+			for i := range ops {
+				if ops[i].K != "opaque" && (i >= len(t.Fields) || ops[i].F != t.Fields[i].Name) {
+					ops[i] = Op{K: "opaque", Src: fmt.Sprintf("statement %d handles field %q, not the struct's field %d", i, ops[i].F, i)}
+				}
 			}
 		}
 		if t.Enc == nil {
